@@ -33,7 +33,7 @@
 //        quick tier, 1 in 3 in the thorough tier) + 300 pseudo-random files (5 000 thorough, see LALR below) + the example files of the repository. Layouts: 7. get_grammar_hash: every text of <= 4 lines
 //        (<= 5 thorough) over an 11-line alphabet, LF and CRLF, with and without final terminator. Compile check: 6 grammar shapes x 56 namings
 //        (one internal name at a time on every user-chosen position, then all at once) + the valid grammars of the family.
-//        Validation: the family + every single renaming `identifier j := identifier i` and every first-letter case flip in 8 base files (about 2 000 files with
+//        Validation: the family + every single renaming `identifier j := identifier i` and every first-letter case flip in 9 base files (about 2 000 files with
 //        0..4 simultaneous violations).
 //        LALR: the well-formed files of the family, of the enumeration (right-hand sides <= 1: all; <= 2: 1 in 97, thorough 1 in 3) and 12 textbook grammars
 //        (LALR-not-SLR, LR(1)-not-LALR, dangling else, expression grammars, nullable chains) + 2 500 pseudo-random files (100 000 thorough) over 2..4
@@ -1164,6 +1164,7 @@ mod __vx_leafcheck {
         "struct S ( $X ) enum E { V ( S ) W ( E ) } terminal T { $X : ( ) }",
         "start S enum S { A ( $X $X ) B ( $X ) C ( _ : $X ) D { p : $X q : $X } } terminal T { $X : ( ) }",
         "start S enum S { Neg { _ : $Minus val : $Num } Lit { val : $Num } Par ( _ : $L S _ : $R ) Bare ( S ) } terminal T { $Minus : ( ) $Num : ( ) $L : ( ) $R : ( ) }",
+        "start S_1 struct S_1 { _0 : $X_ _1st : $X_ x9 : __9Y __ : __9Y } struct __9Y ( $_9Z ) terminal T_ { $X_ : ( ) $_9Z : ( ) }",
     ];
     fn validation_family() -> Vec<Vec<String>> {
         let mut fam: Vec<Vec<String>> = VALID.iter().chain(CONFLICTING).chain(INVALID).map(|c| tokens(c)).collect();
